@@ -9,6 +9,7 @@ import (
 	"errors"
 	"fmt"
 	"os"
+	"slices"
 	"strings"
 	"sync/atomic"
 	"testing"
@@ -184,6 +185,27 @@ func TestC11(t *testing.T) {
 	run.Exhaustive(true)
 }
 
+// pageRecycler is a decorator of a paged store that treats every page it hands out as its own
+// once the next page is asked for: it reorders and empties the previous page in place (the events
+// the page pointed to are left alone).
+type pageRecycler struct {
+	inner ebu.EventStore
+	last  []*ebu.StoredEvent
+}
+
+func (p *pageRecycler) Append(ctx context.Context, e *ebu.Event) (ebu.Offset, error) {
+	return p.inner.Append(ctx, e)
+}
+func (p *pageRecycler) Read(ctx context.Context, from ebu.Offset, limit int) ([]*ebu.StoredEvent, ebu.Offset, error) {
+	slices.Reverse(p.last)
+	for i := 0; i < len(p.last); i += 2 {
+		p.last[i] = nil
+	}
+	evs, next, err := p.inner.Read(ctx, from, limit)
+	p.last = evs
+	return evs, next, err
+}
+
 func one(run *vk.Run, cfg string, st *stores.Opened, offs []ebu.Offset, batch, L, start int, f fail) {
 	S := L - start
 	if S < 0 {
@@ -202,7 +224,21 @@ func one(run *vk.Run, cfg string, st *stores.Opened, offs []ebu.Offset, batch, L
 	case "store-read-deadline":
 		faults.ByKind["read"] = map[int]stores.Action{f.K: stores.FailCtx}
 	}
-	opts := []ebu.Option{ebu.WithStore(stores.Wrap(st.Store, faults))}
+	inner := st.Store
+	if _, streams := inner.(ebu.EventStoreStreamer); !streams && f.Kind != "reentrant-callback" { // a nested replay asks for pages while the outer one is still using its own
+		inner = &pageRecycler{inner: inner}
+	}
+	opts := []ebu.Option{ebu.WithStore(stores.Wrap(inner, faults))}
+	if (L+start+batch)%2 == 0 {
+		// "defaults first, the caller's options last": a default in-memory store (which streams and
+		// holds other events) is given before the store the bus is to use
+		decoy := ebu.NewMemoryStore()
+		for i := 0; i < 3; i++ {
+			decoy.Append(context.Background(), &ebu.Event{Type: ebu.EventType(evA{}), Data: json.RawMessage(`{"N":-1}`), Timestamp: time.Unix(1, 0)})
+		}
+		opts = append([]ebu.Option{ebu.WithStore(decoy)}, opts...)
+		run.Count("buses_given_a_default_store_before_their_own", 1)
+	}
 	if batch != 0 {
 		opts = append(opts, ebu.WithReplayBatchSize(batch))
 	}
